@@ -1,6 +1,6 @@
 \* exhaustive design model, required reader: every single-species file over
-\* 10 names x 8 compositions x 2 phases x 2 notes x 3 coefficient sets x 2 temperature sets
-\* (1920) and every list of 2-3 species over the 10 names (1100)
+\* 10 names x 10 compositions x 2 phases x 2 notes x 3 coefficient sets x 2 temperature sets
+\* (2400) and every list of 2-3 species over the 10 names (1100)
 SPECIFICATION Spec
 CONSTANTS
   Lists <- MCLists
